@@ -95,328 +95,60 @@ theorem C05_upd_length (v : VW) (buf : List α) (f : Nat × Nat → Option α) :
     (v.updCells buf f).length = buf.length :=
   VW.updCells_length v buf f
 
-/-! ### conservation over histories: helper lemmas -/
+/-! ### the accounting law over histories -/
 
-/-- exchanging two values is an involution (shape shared by `swapIdx` and `swapCellG`) -/
-theorem fl_swap_invol {β : Type} [DecidableEq β] (a b x : β) :
-    (if (if x = a then b else if x = b then a else x) = a then b
-      else if (if x = a then b else if x = b then a else x) = b then a
-      else (if x = a then b else if x = b then a else x)) = x := by
-  by_cases h1 : x = a
-  · rw [if_pos h1]
-    by_cases h2 : b = a
-    · rw [if_pos h2, h2, h1]
-    · rw [if_neg h2, if_pos rfl, h1]
-  · rw [if_neg h1]
-    by_cases h2 : x = b
-    · rw [if_pos h2, if_pos rfl, h2]
-    · rw [if_neg h2, if_neg h1, if_neg h2]
+/-- an overwrite of cells of an owned array conserves elements: the new buffer plus the replaced cells are the old buffer plus the
+    written values -/
+theorem C05_overwrite_conserves (t : TD α) (h : t.Inv) (f : Nat × Nat → Option α) :
+    (t.asView.updCells t.data f ++ t.overwritten f).Perm (t.data ++ t.written f) := by
+  sorry
 
-theorem fl_swapIdx_inj {a b i j : Nat} (he : swapIdx a b i = swapIdx a b j) : i = j := by
-  have hi : swapIdx a b (swapIdx a b i) = i := fl_swap_invol a b i
-  have hj : swapIdx a b (swapIdx a b j) = j := fl_swap_invol a b j
-  rw [← hi, ← hj, he]
+/-- **one call conserves elements**: what the array owns afterwards, plus what was handed to the caller, plus what the crate
+    dropped, plus what was leaked, is exactly what the array owned before plus what the call took from the caller -/
+theorem C05_step_conserves (e : HEnv) (he : e.ok) (t : TD α) (h : t.Inv) (op : HOp α) (hop : op.wf) :
+    ((hstep e t op).data ++ (hflow e t op).handed ++ (hflow e t op).dropped ++ (hflow e t op).leaked).Perm
+      (t.data ++ (hflow e t op).supplied) := by
+  sorry
 
-theorem fl_swapCellG_inj {a b x y : Nat × Nat} (he : swapCellG a b x = swapCellG a b y) : x = y := by
-  have hx : swapCellG a b (swapCellG a b x) = x := fl_swap_invol a b x
-  have hy : swapCellG a b (swapCellG a b y) = y := fl_swap_invol a b y
-  rw [← hx, ← hy, he]
+/-- **any history conserves elements** -/
+theorem C05_history_conserves (e : HEnv) (he : e.ok) (t : TD α) (h : t.Inv) (ops : List (HOp α)) (hops : ∀ op ∈ ops, op.wf) :
+    ((hrun e t ops).data ++ (hflowRun e t ops).handed ++ (hflowRun e t ops).dropped ++ (hflowRun e t ops).leaked).Perm
+      (t.data ++ (hflowRun e t ops).supplied) := by
+  sorry
 
-/-- a cell bijection of the whole owned array conserves its cells -/
-theorem fl_gather_perm (t : TD α) (h : t.Inv) (g : Nat × Nat → Nat × Nat)
-    (hg : ∀ c r, c < t.numCols → r < t.numRows → (g (c, r)).1 < t.numCols ∧ (g (c, r)).2 < t.numRows)
-    (hinj : ∀ c r c' r', c < t.numCols → r < t.numRows → c' < t.numCols → r' < t.numRows →
-      g (c, r) = g (c', r') → (c, r) = (c', r')) :
-    (gather t.data (t.asView.mapCells g)).Perm t.data :=
-  C05_perm_conserves t.asView t.data (C02_owned_as_view t h).1 g hg hinj
+/-- a call during which no caller code panics, no iterator lies and nothing is forgotten leaks nothing -/
+theorem C05_step_no_leak (e : HEnv) (he : e.ok) (t : TD α) (h : t.Inv) (op : HOp α) (hop : op.wf) (hon : op.honest) :
+    (hflow e t op).leaked = [] := by
+  sorry
 
-/-- an in-place operation whose result (when it succeeds) is a permutation of the cells conserves them -/
-theorem fl_withData_perm (t : TD α) (r : Res (List α)) (hr : ∀ d, r = .ok d → d.Perm t.data) :
-    (t.withData r).data.Perm t.data := by
-  cases r with
-  | error e => exact List.Perm.refl _
-  | ok d => exact hr d rfl
+theorem C05_history_no_leak (e : HEnv) (he : e.ok) (t : TD α) (h : t.Inv) (ops : List (HOp α)) (hops : ∀ op ∈ ops, op.wf)
+    (hon : ∀ op ∈ ops, op.honest) :
+    (hflowRun e t ops).leaked = [] := by
+  sorry
 
-theorem fl_perm_swap (m : Mode) (t : TD α) (h : t.Inv) (c1 r1 c2 r2 : Nat) :
-    (t.withData (t.swap m c1 r1 c2 r2)).data.Perm t.data := by
-  apply fl_withData_perm
-  intro d hd
-  by_cases hr : c1 < t.numCols ∧ c2 < t.numCols ∧ r1 < t.numRows ∧ r2 < t.numRows
-  · have hcw := h.cols_word
-    have hrw := h.rows_word
-    rw [(C13_swap_owned m t h c1 r1 c2 r2 ⟨by omega, by omega, by omega, by omega⟩).1 hr] at hd
-    injection hd with hd
-    rw [← hd]
-    exact fl_gather_perm t h _ (hs_swapCellG_cells t hr) (fun _ _ _ _ _ _ _ _ he => fl_swapCellG_inj he)
-  · rw [hs_swap_reject m t c1 r1 c2 r2 hr] at hd
-    cases hd
+/-- **the second sentence of the property**: after a history in which nothing panics and nothing is leaked, once the array is
+    dropped (`clear` drops the same cells) no element is left undropped: everything the array ever held or was given has been
+    dropped by the crate or handed to the caller — each exactly once (a permutation) -/
+theorem C05_history_all_accounted (e : HEnv) (he : e.ok) (t : TD α) (h : t.Inv) (ops : List (HOp α)) (hops : ∀ op ∈ ops, op.wf)
+    (hon : ∀ op ∈ ops, op.honest) :
+    ((hflowRun e t (ops ++ [.clear])).handed ++ (hflowRun e t (ops ++ [.clear])).dropped).Perm
+      (t.data ++ (hflowRun e t (ops ++ [.clear])).supplied) := by
+  sorry
 
-theorem fl_perm_swapRows (m : Mode) (t : TD α) (h : t.Inv) (r1 r2 : Nat) :
-    (t.withData (t.swapRows m r1 r2)).data.Perm t.data := by
-  apply fl_withData_perm
-  intro d hd
-  by_cases hr : r1 < t.numRows ∧ r2 < t.numRows
-  · rw [(hs_swapRows m t h r1 r2).1 hr] at hd
-    injection hd with hd
-    rw [← hd]
-    refine fl_gather_perm t h _ (hs_swapRowsG_cells t hr) (fun c r c' r' _ _ _ _ he => ?_)
-    simp only [swapRowsG, Prod.mk.injEq] at he
-    rw [he.1, fl_swapIdx_inj he.2]
-  · rw [(hs_swapRows m t h r1 r2).2 hr] at hd
-    cases hd
+/-- with unique element identities: along any history no element is both still in the array and already handed out / dropped /
+    leaked, and none is handed out, dropped or leaked twice -/
+theorem C05_history_exactly_once (e : HEnv) (he : e.ok) (t : TD α) (h : t.Inv) (ops : List (HOp α)) (hops : ∀ op ∈ ops, op.wf)
+    (hnd : (t.data ++ (hflowRun e t ops).supplied).Nodup) :
+    ((hrun e t ops).data ++ (hflowRun e t ops).handed ++ (hflowRun e t ops).dropped ++ (hflowRun e t ops).leaked).Nodup := by
+  sorry
 
-theorem fl_perm_swapCols (t : TD α) (h : t.Inv) (c1 c2 : Nat) :
-    (t.withData (t.acc.swapCols t.data c1 c2)).data.Perm t.data := by
-  apply fl_withData_perm
-  intro d hd
-  by_cases hc : c1 < t.numCols ∧ c2 < t.numCols
-  · rw [(hs_swapCols t h c1 c2).1 hc] at hd
-    injection hd with hd
-    rw [← hd]
-    refine fl_gather_perm t h _ (hs_swapColsG_cells t hc) (fun c r c' r' _ _ _ _ he => ?_)
-    simp only [swapColsG, Prod.mk.injEq] at he
-    rw [he.2, fl_swapIdx_inj he.1]
-  · rw [(hs_swapCols t h c1 c2).2 hc] at hd
-    cases hd
-
-theorem fl_perm_translate (m : Mode) (t : TD α) (h : t.Inv) (mc mr : Nat) :
-    (t.withData (t.acc.translateWithWrap m (t.getUncheckedRow m) t.data (mc, mr))).data.Perm t.data := by
-  apply fl_withData_perm
-  intro d hd
-  by_cases hm : mc ≤ t.numCols ∧ mr ≤ t.numRows
-  · rw [C15_translate m t.asView t.data (C02_owned_as_view t h).1 t.acc (C13_acc_owned t h) _
-      (hs_getUncheckedRow m t h) (mc, mr) hm] at hd
-    injection hd with hd
-    rw [← hd]
-    have hb := C15_maps_bijective t.numCols t.numRows mc mr _ (List.mem_cons_self ..)
-    exact fl_gather_perm t h _ hb.1 hb.2
-  · rw [C15_translate_reject m t.acc _ t.data (mc, mr) hm] at hd
-    cases hd
-
-theorem fl_perm_flipRows (m : Mode) (t : TD α) (h : t.Inv) :
-    (t.withData (t.acc.flipRows m t.data)).data.Perm t.data := by
-  rw [hs_flipRows m t h]
-  have hb := C15_maps_bijective t.numCols t.numRows 0 0 (flipRowsG t.numRows) (by simp)
-  exact fl_gather_perm t h _ hb.1 hb.2
-
-theorem fl_perm_flipCols (t : TD α) (h : t.Inv) :
-    (t.withData (t.acc.flipCols t.data)).data.Perm t.data := by
-  rw [hs_flipCols t h]
-  have hb := C15_maps_bijective t.numCols t.numRows 0 0 (flipColsG t.numCols) (by simp)
-  exact fl_gather_perm t h _ hb.1 hb.2
-
-theorem fl_perm_sortByRow (m : Mode) (t : TD α) (h : t.Inv) (le : α → α → Bool) (row : Nat) :
-    (t.withData (t.acc.sortByRow (t.indexRow m) t.data le row)).data.Perm t.data := by
-  apply fl_withData_perm
-  intro d hd
-  have hv := (C02_owned_as_view t h).1
-  have hs := C16_sort_by_row t.asView t.data hv t.acc (C13_acc_owned t h) (t.indexRow m) (hs_indexRow m t h) le row
-  by_cases hr : row < t.asView.numRows
-  · rw [hs.1 hr] at hd
-    injection hd with hd
-    rw [← hd]
-    have hin := VW.rowWin_inside hv hr
-    have hl : (readWin t.data (t.asView.rowWin row)).length = t.numCols := by
-      simp only [readWin, List.length_take, List.length_drop]
-      have : (t.asView.rowWin row).len = t.numCols := rfl
-      omega
-    have hp := stablePerm_perm le (readWin t.data (t.asView.rowWin row))
-    rw [hl] at hp
-    have hb := C16_cols_bijective t.numCols t.numRows _ hp
-    refine fl_gather_perm t h _
-      (fun c r hc hr' => ⟨(hb.1 c r hc hr').1, by rw [(hb.1 c r hc hr').2]; exact hr'⟩)
-      (fun c r c' r' hc hr' hc' hr'' he => ?_)
-    have h2 : r = r' := by
-      have := congrArg Prod.snd he
-      rw [(hb.1 c r hc hr').2, (hb.1 c' r' hc' hr'').2] at this
-      exact this
-    subst h2
-    rw [hb.2 c c' r hc hc' (congrArg Prod.fst he)]
-  · rw [hs.2 hr] at hd
-    cases hd
-
-theorem fl_perm_sortByCol (m : Mode) (t : TD α) (h : t.Inv) (le : α → α → Bool) (col : Nat) :
-    (t.withData (t.acc.sortByCol (t.col m)
-      (fun b r1 r2 => ({ t with data := b } : TD α).swapRows m r1 r2) t.data le col)).data.Perm t.data := by
-  apply fl_withData_perm
-  intro d hd
-  have hv := (C02_owned_as_view t h).1
-  have hcw := h.cols_word
-  have hcol : ∀ c, c < t.asView.numCols → ∃ it, t.col m c = .ok it ∧ it.WF t.asView.numRows t.data.length ∧
-      it.abs t.asView.numRows = (List.range t.asView.numRows).map fun r => t.asView.pos c r := by
-    intro c hc
-    have hc' : c < t.numCols := hc
-    obtain ⟨it, e, hwf, habs⟩ := (C09_col_owned m t h c (by omega)).1 hc'
-    refine ⟨it, e, hwf, ?_⟩
-    show it.abs t.numRows = _
-    rw [habs]
-    apply List.map_congr_left
-    intro r _
-    exact ((C02_owned_as_view t h).2 c r).symm
-  have hsw : SwapRowsSpec t.asView t.data.length
-      (fun b r1 r2 => ({ t with data := b } : TD α).swapRows m r1 r2) := by
-    intro b r1 r2 hb hr1 hr2
-    have hbi := h.with_data b hb
-    have e := (hs_swapRows m _ hbi r1 r2).1 ⟨hr1, hr2⟩
-    have hview : ({ t with data := b } : TD α).asView = t.asView := by
-      simp only [TD.asView, TD.win, hb]
-    rw [hview] at e
-    exact e
-  have hs := C17_sort_by_col t.asView t.data hv t.acc (C13_acc_owned t h) (t.col m) hcol _ hsw le col
-  by_cases hc : col < t.asView.numCols
-  · rw [hs.1 hc] at hd
-    injection hd with hd
-    rw [← hd]
-    have hp := stablePerm_perm le ((List.range t.asView.numRows).filterMap fun r => t.data[t.asView.pos col r]?)
-    rw [col_keys_length t.asView t.data hv hc] at hp
-    have hb := C17_rows_bijective t.numCols t.numRows _ hp
-    refine fl_gather_perm t h _
-      (fun c r hc' hr => ⟨by rw [(hb.1 c r hc' hr).2]; exact hc', (hb.1 c r hc' hr).1⟩)
-      (fun c r c' r' hc' hr hc'' hr' he => ?_)
-    have h1 : c = c' := by
-      have := congrArg Prod.fst he
-      rw [(hb.1 c r hc' hr).2, (hb.1 c' r' hc'' hr').2] at this
-      exact this
-    subst h1
-    rw [hb.2 c r r' hr hr' (congrArg Prod.snd he)]
-  · rw [hs.2 hc] at hd
-    cases hd
-
-/-- chaining two conservation steps: removed and supplied elements accumulate -/
-theorem fl_chain (A0 A1 A2 R1 R2 S1 S2 : List α) (h1 : (A1 ++ R1).Perm (A0 ++ S1)) (h2 : (A2 ++ R2).Perm (A1 ++ S2)) :
-    (A2 ++ (R1 ++ R2)).Perm (A0 ++ (S1 ++ S2)) := by
-  have e1 : (A2 ++ (R1 ++ R2)).Perm (A2 ++ R2 ++ R1) := by
-    rw [← List.append_assoc]; exact ow_perm_swap_tail A2 R1 R2
-  have e2 : (A2 ++ R2 ++ R1).Perm (A1 ++ S2 ++ R1) := List.Perm.append_right R1 h2
-  have e3 : (A1 ++ S2 ++ R1).Perm (A1 ++ R1 ++ S2) := ow_perm_swap_tail A1 S2 R1
-  have e4 : (A1 ++ R1 ++ S2).Perm (A0 ++ S1 ++ S2) := List.Perm.append_right S2 h1
-  have e5 : A0 ++ (S1 ++ S2) = A0 ++ S1 ++ S2 := (List.append_assoc ..).symm
-  rw [e5]
-  exact ((e1.trans e2).trans e3).trans e4
-
-theorem fl_step_removeRow (m : Mode) (t : TD α) (h : t.Inv) (i : Nat) :
-    ((hstep m t (.removeRow i)).data ++ (hflow m t (.removeRow i)).2).Perm (t.data ++ (hflow m t (.removeRow i)).1) := by
-  by_cases hi : i < t.numRows
-  · obtain ⟨d, hd, _⟩ := (hs_removeRow m t h i).1 hi
-    simp only [hstep, hflow, hd, List.append_nil]
-    exact C05_remove_row m t h i hi d hd
-  · simp only [hstep, hflow, (hs_removeRow m t h i).2 hi]
-    exact List.Perm.refl _
-
-theorem fl_step_removeCol (m : Mode) (t : TD α) (h : t.Inv) (i : Nat) :
-    ((hstep m t (.removeCol i)).data ++ (hflow m t (.removeCol i)).2).Perm (t.data ++ (hflow m t (.removeCol i)).1) := by
-  by_cases hi : i < t.numCols
-  · obtain ⟨d, hd, hb, hc, hnc, hnr, _, hwf, habs⟩ := C07_remove_col m t h i hi
-    obtain ⟨t', dropped, e, _, hdr, hdata, _⟩ := C07_remove_col_drop m t h i hi d hb hc hnc hnr t.numRows hwf
-    simp only [hstep, hflow, hd, e, List.append_nil]
-    rw [hdata, hdr, habs, List.filterMap_map]
-    exact C05_remove_col t h i hi
-  · simp only [hstep, hflow, (hs_removeCol m t h i).2 hi]
-    exact List.Perm.refl _
-
-theorem fl_flow_popRow (m : Mode) (t : TD α) (h : t.Inv) :
-    hflow m t .popRow = (if t.numRows = 0 then ([], []) else hflow m t (.removeRow (t.numRows - 1))) := by
-  by_cases h0 : t.numRows = 0
-  · rw [if_pos h0]
-    simp only [hflow, (C07_pop_row m t h).1 h0]
-  · rw [if_neg h0]
-    simp only [hflow, (C07_pop_row m t h).2 h0]
-    cases t.removeRow m (t.numRows - 1) <;> rfl
-
-theorem fl_flow_popCol (m : Mode) (t : TD α) (h : t.Inv) :
-    hflow m t .popCol = (if t.numCols = 0 then ([], []) else hflow m t (.removeCol (t.numCols - 1))) := by
-  by_cases h0 : t.numCols = 0
-  · rw [if_pos h0]
-    simp only [hflow, (C07_pop_col m t h).1 h0]
-  · rw [if_neg h0]
-    simp only [hflow, (C07_pop_col m t h).2 h0]
-    cases t.removeCol m (t.numCols - 1) <;> rfl
-
-/-- **Conservation across one operation of a history** (any `HOp`, any arguments, also rejected calls and panicking iterators):
-    what the array holds afterwards plus what left it is exactly what it held before plus what the caller supplied. -/
-theorem C05_step_conserves (m : Mode) (t : TD α) (h : t.Inv) (op : HOp α) (hop : op.spareOk) :
-    ((hstep m t op).data ++ (hflow m t op).2).Perm (t.data ++ (hflow m t op).1) := by
-  have inplace : ∀ d : List α, d.Perm t.data → (d ++ []).Perm (t.data ++ []) := fun d hd => by
-    rw [List.append_nil, List.append_nil]; exact hd
-  cases op with
-  | fromVec c r v =>
-    by_cases hs : shapeOk c r ∧ c * r = v.length
-    · obtain ⟨t', e, _, _, _, hdata⟩ := (C20_from_vec c r v).1 hs
-      simp only [hstep, hflow, e]
-      rw [hdata]
-      exact List.perm_append_comm
-    · simp only [hstep, hflow, (C20_from_vec c r v).2 hs]
-      exact List.Perm.refl _
-  | insertRow i it spare =>
-    have hp := (C11_insert_row m histCap t h i it spare (Or.inl hop) histCap_lt).2.2.2
-    show ((t.insertRow m histCap i it spare).t.data ++ ((t.insertRow m histCap i it spare).leaked
-      ++ (t.insertRow m histCap i it spare).rest.filterMap id)).Perm (t.data ++ it.events.filterMap id)
-    rw [← List.append_assoc]
-    exact hp
-  | insertCol i it spare =>
-    have hp := (C11_insert_col m histCap t h i it spare (Or.inl hop) histCap_lt).2.2.2
-    show ((t.insertCol m histCap i it spare).t.data ++ ((t.insertCol m histCap i it spare).leaked
-      ++ (t.insertCol m histCap i it spare).rest.filterMap id)).Perm (t.data ++ it.events.filterMap id)
-    rw [← List.append_assoc]
-    exact hp
-  | removeRow i => exact fl_step_removeRow m t h i
-  | removeCol i => exact fl_step_removeCol m t h i
-  | popRow =>
-    rw [hs_popRow m t h, fl_flow_popRow m t h]
-    by_cases h0 : t.numRows = 0
-    · rw [if_pos h0, if_pos h0]
-    · rw [if_neg h0, if_neg h0]; exact fl_step_removeRow m t h _
-  | popCol =>
-    rw [hs_popCol m t h, fl_flow_popCol m t h]
-    by_cases h0 : t.numCols = 0
-    · rw [if_pos h0, if_pos h0]
-    · rw [if_neg h0, if_neg h0]; exact fl_step_removeCol m t h _
-  | clear =>
-    show (([] : List α) ++ t.data).Perm (t.data ++ [])
-    exact List.perm_append_comm
-  | swapDimensions => exact inplace _ (List.Perm.refl _)
-  | capacityCall => exact inplace _ (List.Perm.refl _)
-  | fill x =>
-    show (t.fill x ++ t.data).Perm (t.data ++ List.replicate t.data.length x)
-    have : t.fill x = List.replicate t.data.length x := by simp [TD.fill]
-    rw [this]
-    exact List.perm_append_comm
-  | swap c1 r1 c2 r2 => exact inplace _ (fl_perm_swap m t h c1 r1 c2 r2)
-  | swapRows r1 r2 => exact inplace _ (fl_perm_swapRows m t h r1 r2)
-  | swapCols c1 c2 => exact inplace _ (fl_perm_swapCols t h c1 c2)
-  | copyFromSlice src =>
-    by_cases hl : t.data.length = src.length
-    · have e : t.copyFromSlice src = .ok src := by
-        unfold TD.copyFromSlice
-        rw [if_neg (by simpa using hl)]
-        rfl
-      simp only [hstep, hflow, e, TD.withData]
-      exact List.perm_append_comm
-    · have e : t.copyFromSlice src = .error .panic := by
-        unfold TD.copyFromSlice
-        rw [if_pos hl]
-        rfl
-      simp only [hstep, hflow, e, TD.withData]
-      exact List.Perm.refl _
-  | translate mc mr => exact inplace _ (fl_perm_translate m t h mc mr)
-  | flipRows => exact inplace _ (fl_perm_flipRows m t h)
-  | flipCols => exact inplace _ (fl_perm_flipCols t h)
-  | sortByRow le row => exact inplace _ (fl_perm_sortByRow m t h le row)
-  | sortByCol le col => exact inplace _ (fl_perm_sortByCol m t h le col)
-
-/-- **Conservation across any history**: every element ever placed in the array is, at the end, either still in the array or
-    among the removed ones — exactly once (a permutation; with `C05_exactly_once` for duplicate-free ids: never twice, never
-    while still reachable). -/
-theorem C05_history_conserves (m : Mode) (t : TD α) (h : t.Inv) (ops : List (HOp α)) (hops : ∀ op ∈ ops, op.spareOk) :
-    ((hrun m t ops).data ++ (hflowRun m t ops).2).Perm (t.data ++ (hflowRun m t ops).1) := by
-  induction ops generalizing t with
-  | nil => exact List.Perm.refl _
-  | cons op ops ih =>
-    have hop := hops op (List.mem_cons_self ..)
-    have h1 := C05_step_conserves m t h op hop
-    have h2 := ih (hstep m t op) (C01_step_inv m t h op hop) (fun o ho => hops o (List.mem_cons_of_mem _ ho))
-    show ((hrun m (hstep m t op) ops).data ++ ((hflow m t op).2 ++ (hflowRun m (hstep m t op) ops).2)).Perm
-      (t.data ++ ((hflow m t op).1 ++ (hflowRun m (hstep m t op) ops).1))
-    exact fl_chain _ _ _ _ _ _ _ h1 h2
+/-- non-vacuity: a concrete history with its flow -/
+example :
+    let e : HEnv := ⟨.release, 1000, 1000⟩
+    let ops : List (HOp Nat) :=
+      [.insertRow 0 (honest [1, 2, 3]) [0, 0, 0], .insertRow 1 (honest [4, 5, 6]) [0, 0, 0], .removeCol 1 [true],
+       .inplace (.set 0 0 9), .takeInto 1]
+    hflowRun e (TD.default : TD Nat) ops = ⟨[1, 2, 3, 4, 5, 6, 9], [2, 9], [5, 1, 3, 4, 6], []⟩ := by
+  sorry
 
 end Toodee
